@@ -37,7 +37,7 @@ def main():
     incon = [r for r in results if r["verdict"] in ("inconclusive", "vacuous")]
     known = [h for r in results for h in r.get("known_hits", [])]
     # vacuity: minimum number of distinct outcome classes
-    classes = sorted({tuple(n) for r in results for n in r.get("notes", [])})
+    classes = sorted({tuple(n) for r in results for n in r.get("notes", [])}, key=repr)
     min_classes = plan.get("min_classes", 2)
     vacuous = len(classes) < min_classes and not violations
     write_evidence(prop, tier, seed, plan, results, classes, wall, len(violations))
